@@ -195,7 +195,20 @@ func (m *monitor) after(o Op, pre *preT, ob obsT, err error, events sdk.Events) 
 		if !sameAtts(old.atts, ob.atts) || ob.lastObs != old.lastObs {
 			m.fail("C01:tally-changed-by-other-op", fmt.Sprintf("operation %s changed attestations / last observed nonce", o.Kind))
 		}
-		if o.Kind != "exec" && o.Kind != "exec_evm" && !sameU64(old.pending, ob.pending) {
+		// (a genesis export drops the parked claims — not exported, finding C05-2 of the outgoing-transfer property;
+		// for C01 that is "zero executions", which "at most once" allows; they must never come back, see exec-twice)
+		if o.Kind == "export" && len(ob.pending) > 0 {
+			newOnes := 0
+			for _, n := range ob.pending {
+				if _, was := h.pendingHas(old.pending, n); !was {
+					newOnes++
+				}
+			}
+			if newOnes > 0 {
+				m.fail("C01:pending-changed-by-other-op", fmt.Sprintf("genesis export + import parked %d claims that were not parked before", newOnes))
+			}
+		}
+		if o.Kind != "exec" && o.Kind != "exec_evm" && o.Kind != "export" && !sameU64(old.pending, ob.pending) {
 			m.fail("C01:pending-changed-by-other-op", fmt.Sprintf("operation %s changed the parked claims", o.Kind))
 		}
 	}
@@ -251,9 +264,10 @@ func (m *monitor) after(o Op, pre *preT, ob obsT, err error, events sdk.Events) 
 			h.rep.Count("revote-after-rebond")
 		}
 		m.voted[pre.voteOracle][o.Nonce] = true
-		// (an oracle that fell more than one nonce behind the last observed one may re-synchronise at the last observed
-		// nonce, exactly like a newly registered oracle: not counted as a skipped nonce)
-		if last, ok := m.lastAcc[pre.voteOracle]; ok && o.Nonce != last+1 && !(o.Nonce > last+1 && o.Nonce == old.lastObs) {
+		// (within one registration and one run of the chain: after a restart from an exported genesis the cursors are
+		// rebuilt from the stored votes and a lagging oracle restarts at lastObserved-1 like a new one — by design of
+		// InitGenesis, not counted)
+		if last, ok := m.lastAcc[pre.voteOracle]; ok && o.Nonce != last+1 {
 			m.fail("C01:skip", fmt.Sprintf("oracle %d voted nonce %d after nonce %d within one registration", pre.voteOracle, o.Nonce, last))
 		}
 		m.lastAcc[pre.voteOracle] = o.Nonce
@@ -369,6 +383,26 @@ func (m *monitor) after(o Op, pre *preT, ob obsT, err error, events sdk.Events) 
 			delete(m.lastAcc, int64(o.Oracle)) // a later registration starts where the chain then is
 		}
 		nontrivial = accepted
+	case "export":
+		m.lastAcc = map[int64]uint64{} // restart: cursors are rebuilt by InitGenesis
+		nontrivial = true
+		// the export/import must preserve what the properties rest on
+		if ob.lastObs != old.lastObs || !sameAtts(old.atts, ob.atts) {
+			m.fail("C01:export-import", "genesis export + import changed the last observed nonce or the attestations")
+		}
+		for _, p := range old.lastBy {
+			if uint64(p[1]) >= old.lastObs { // a cursor at or beyond the last observed nonce must survive exactly
+				found := false
+				for _, q := range ob.lastBy {
+					if q[0] == p[0] && q[1] == p[1] {
+						found = true
+					}
+				}
+				if !found {
+					m.fail("C01:export-import", fmt.Sprintf("genesis export + import lost the cursor %d of oracle %d (last observed %d): it could vote again for a nonce it voted for", p[1], p[0], old.lastObs))
+				}
+			}
+		}
 	default:
 		nontrivial = accepted
 	}
